@@ -73,7 +73,8 @@ type inliner struct {
 	p        *Program
 	seq      int
 	absorbed map[*ast.Ident]bool // original call-site identifiers whose call was absorbed
-	Stats    struct{ Calls, Exprs int }
+	folders  []*folder           // restored helpers (restore.go)
+	Stats    struct{ Calls, Exprs, Folded int }
 }
 
 func (p *Program) normalise() {
@@ -83,7 +84,7 @@ func (p *Program) normalise() {
 		return
 	}
 	// candidates: module functions outside the baseline
-	cand := false
+	cand := len(p.restoredFn) > 0
 	for fn := range p.declOf {
 		if !InBaseline(fn) {
 			cand = true
@@ -93,6 +94,15 @@ func (p *Program) normalise() {
 		return
 	}
 	in := &inliner{p: p, absorbed: map[*ast.Ident]bool{}}
+	// restored helpers: fold the copies that were written out at their call sites back into calls
+	for h := range p.restoredFn {
+		if f := p.newFolder(h); f != nil {
+			in.folders = append(in.folders, f)
+		}
+	}
+	sort.Slice(in.folders, func(i, j int) bool { // bigger bodies first
+		return len(in.folders[i].decl.Body.List) > len(in.folders[j].decl.Body.List)
+	})
 	for fn, d := range p.declOf {
 		if d.Body == nil {
 			continue
@@ -142,6 +152,7 @@ func (p *Program) normalise() {
 		}
 	}
 	p.InlineStats = [2]int{in.Stats.Calls, in.Stats.Exprs}
+	p.Folded = in.Stats.Folded
 }
 
 // AbsorbedNames lists the absorbed helpers (sorted).
@@ -247,6 +258,19 @@ func (c *cloner) node(n ast.Node) ast.Node {
 				// the replacement lives in the caller: clone it with the caller's info on both sides
 				cc := &cloner{src: c.dst, dst: c.dst}
 				return cc.node(repl)
+			}
+		}
+	}
+	if st, ok := n.(*ast.StarExpr); ok && c.subst != nil {
+		// *p with p bound to &x is x
+		if id, ok := ast.Unparen(st.X).(*ast.Ident); ok {
+			if obj := c.src.Uses[id]; obj != nil {
+				if repl, ok := c.subst[obj]; ok {
+					if ue, ok := ast.Unparen(repl).(*ast.UnaryExpr); ok && ue.Op == token.AND {
+						cc := &cloner{src: c.dst, dst: c.dst}
+						return cc.node(ue.X)
+					}
+				}
 			}
 		}
 	}
@@ -572,6 +596,36 @@ func (c *cloner) markAbsorbed(id *ast.Ident) {
 // ---- statement level ----
 
 func (in *inliner) normaliseDecl(pk *packages.Package, fn *types.Func, d *ast.FuncDecl) *ast.FuncDecl {
+	// copies of restored helpers are folded back first, on a private clone
+	if !in.p.restoredFn[fn] {
+		folded := 0
+		var body *ast.BlockStmt
+		for _, f := range in.folders {
+			if f.helper.Pkg() != fn.Pkg() {
+				continue
+			}
+			if body == nil {
+				pc := &cloner{src: pk.TypesInfo, dst: pk.TypesInfo}
+				body = pc.node(d.Body).(*ast.BlockStmt)
+			}
+			folded += f.fold(body)
+		}
+		if folded > 0 {
+			nd := *d
+			nd.Body = body
+			d = &nd
+			in.Stats.Folded += folded
+			defer func() {}()
+			if r := in.normaliseDecl1(pk, fn, d); r != nil {
+				return r
+			}
+			return d
+		}
+	}
+	return in.normaliseDecl1(pk, fn, d)
+}
+
+func (in *inliner) normaliseDecl1(pk *packages.Package, fn *types.Func, d *ast.FuncDecl) *ast.FuncDecl {
 	// quick exit: nothing outside the baseline is mentioned
 	any := false
 	ast.Inspect(d.Body, func(n ast.Node) bool {
@@ -721,6 +775,32 @@ func (c *cloner) stmt1(s ast.Stmt) []ast.Stmt {
 			if call, ok := ast.Unparen(x.Results[0]).(*ast.CallExpr); ok {
 				if r := c.absorb(call, nil, token.ILLEGAL, true, x); r != nil {
 					return r
+				}
+			}
+		}
+	case *ast.DeferStmt:
+		// defer h(args) with an absorbable helper: defer func() { h(args) }() – the arguments are names or
+		// addresses, so evaluating them when the function returns instead of here makes no difference to the rules
+		if fn, _ := c.callee(c.src, x.Call); fn != nil && c.in != nil {
+			stableArgs := true
+			for _, a := range x.Call.Args {
+				if !stableExpr(c.src, a) {
+					stableArgs = false
+				}
+			}
+			if sel, ok := ast.Unparen(x.Call.Fun).(*ast.SelectorExpr); ok && !stableExpr(c.src, sel.X) {
+				stableArgs = false
+			}
+			if stableArgs {
+				sub := *c
+				sub.curSig = types.NewSignatureType(nil, nil, nil, nil, nil, false)
+				inner := sub.stmt(&ast.ExprStmt{X: x.Call})
+				if len(inner) != 1 || !isPlainCall(inner[0], x.Call) {
+					lit := &ast.FuncLit{Type: &ast.FuncType{Func: x.Call.Pos(), Params: &ast.FieldList{}}, Body: &ast.BlockStmt{Lbrace: x.Call.Pos(), List: inner, Rbrace: x.Call.End()}}
+					c.dst.Types[lit] = types.TypeAndValue{Type: sub.curSig}
+					call := &ast.CallExpr{Fun: lit, Lparen: x.Call.Lparen, Rparen: x.Call.Rparen}
+					nd := &ast.DeferStmt{Defer: x.Defer, Call: call}
+					return []ast.Stmt{nd}
 				}
 			}
 		}
@@ -1161,3 +1241,13 @@ func (c *cloner) absorb(call *ast.CallExpr, lhs []ast.Expr, tok token.Token, tai
 }
 
 type giveUp struct{}
+
+// isPlainCall: the statement is still just the (cloned) call – nothing was absorbed.
+func isPlainCall(s ast.Stmt, orig *ast.CallExpr) bool {
+	es, ok := s.(*ast.ExprStmt)
+	if !ok {
+		return false
+	}
+	_, isCall := ast.Unparen(es.X).(*ast.CallExpr)
+	return isCall
+}
